@@ -262,17 +262,13 @@ func UtxoValidateNativeScripts(
 		keyHashes[keyHash] = true
 	}
 
-	// Get transaction validity interval
-	validityStart := tx.ValidityIntervalStart()
-	validityEnd := tx.TTL()
-	if validityEnd == 0 {
-		validityEnd = ^uint64(0) // Max uint64 if not set
-	}
+	// Get transaction validity interval (nil = the body does not carry the bound)
+	validityStart, validityEnd := common.ValidityBounds(tx)
 
 	// Evaluate each native script
 	for _, nscript := range nativeScripts {
 		scriptHash := nscript.Hash()
-		if !nscript.Evaluate(slot, validityStart, validityEnd, keyHashes) {
+		if !nscript.EvaluateWithBounds(validityStart, validityEnd, keyHashes, nil) {
 			return NativeScriptFailedError{ScriptHash: scriptHash}
 		}
 	}
